@@ -64,7 +64,7 @@ CLAIMED = {
     'C07': dict(
         text="The same rule functions as C06 (the equality clause is also the no_false_accept half: an ill-typed variable usage, an impossible spread at ANY site, an undefined directive / fragment target / type condition, an unused fragment, a non-input variable type, a second anonymous operation, a subscription with several root fields, an undefined field, a leaf with sub-selection ... yields an error), plus the short-circuit: parse_and_validate_query turns validator errors / any parser failure into non-empty errors and _perform_query answers such requests without calling execute, so no resolver or field-level hook runs.",
         ref="DESIGN.md section 4 C06/C07, Appendix A",
-        note="As C06: 22 of 26 rules. Findings D5b (undefined `__foo` fields accepted) and D7 (only the first subscription operation checked) were found by this check and repaired in /repo (472c241, 0f69482)."),
+        note="As C06: 22 of 26 rules. The context layer has one function under contract: _parse_inline_fragment registers the fragment under the ENCLOSING parent type and restores the parent type. Findings D5b (undefined `__foo` fields accepted), D7 (only the first subscription operation checked) and D4 (inline fragments registered under their own type condition) were found by this check and repaired in /repo."),
 'C08': dict(
         text="(i) list_coercer_sequentially and list_coercer_concurrently satisfy literally the same contract (positional results, every item failure gathered), extract_exceptions_from_results, coerce_variables, input_object_coercer and execute_fields merge positionally (loop invariants over zip; pointwise claim for an arbitrary index); (ii) structural obligations over the request cone: every asyncio.gather whose awaitables may raise uses return_exceptions=True (so it returns only when all of them have finished and loses no failure), no create_task / ensure_future / as_completed anywhere (every started coroutine is awaited in place).",
         ref="DESIGN.md section 4 C08",
@@ -104,7 +104,7 @@ def main():
          "engines": [{"name": "pyvc", "path": "pyvc/", "serves_properties": sorted(CLAIMED),
                       "kind_free_text": "contract-based deductive verifier for a Python subset: AST -> verification conditions by forward symbolic execution, modular callee contracts, loop invariants, SMT back ends, native replay of counter-models"}],
          "checks": checks, "not_applicable": na,
-         "notes": "exit codes: 0 held, 1 violation (VIOLATION line), 2 undecided (solver unknown / function outside the subset / stale contract), 3 checker failure. quick tier: every obligation discharged by the solver portfolio. thorough tier: the same obligations with second-solver agreement (z3 4.8.12 and cvc5 both asked on the exported SMT-LIB text; a disagreement is a checker error) plus a mutation probe (built-in AST mutants of each quickly verified function must fail some obligation; reported as coverage.mutation_probe). known_findings.json lists recorded findings and fixes (D1, D5b, D7, D12: all repaired in /repo by fix: commits)."}
+         "notes": "exit codes: 0 held, 1 violation (VIOLATION line), 2 undecided (solver unknown / function outside the subset / stale contract), 3 checker failure. quick tier: every obligation discharged by the solver portfolio. thorough tier: the same obligations with second-solver agreement (z3 4.8.12 and cvc5 both asked on the exported SMT-LIB text; a disagreement is a checker error) plus a mutation probe (built-in AST mutants of each quickly verified function must fail some obligation; reported as coverage.mutation_probe). known_findings.json lists recorded findings and fixes (D1, D4, D5b, D7, D12: all repaired in /repo by fix: commits)."}
     json.dump(m, open(os.path.join(ROOT, 'MANIFEST.json'), 'w'), indent=1)
     try:
         import jsonschema
